@@ -4,7 +4,7 @@
 # pinned suite passes with it, the demonstration fails with it and passes without it.
 # On success copies patch.diff, the demonstration and NOTES.md to /verif/seeded/<id>/.
 export GOFLAGS=-mod=mod GOPROXY=off GOSUMDB=off GOTOOLCHAIN=local
-SRC=$1; ID=$2; W=/tmp/confirm-$ID
+SRC=$1; ID=$2; W=/tmp/confirm-$ID; DEST=${3:-$ID}
 git -C /repo worktree remove --force $W 2>/dev/null
 git -C /repo worktree add -q --detach $W HEAD || exit 2
 trap 'git -C /repo worktree remove --force $W 2>/dev/null' EXIT
@@ -18,9 +18,9 @@ git apply -R $SRC/MUTANT/patch.diff
 go test -vet=off -count=1 -run 'TestVerifDemo$' . > /tmp/confirm-$ID.without 2>&1; WITHOUT=$?
 echo "RESULT $ID: suite_with_change=$SUITE demo_with_change=$WITH demo_without_change=$WITHOUT"
 if [ $SUITE -eq 0 ] && [ $WITH -ne 0 ] && [ $WITHOUT -eq 0 ]; then
-  mkdir -p /verif/seeded/$ID
-  cp $SRC/MUTANT/patch.diff $SRC/MUTANT/verif_demo_test.go /verif/seeded/$ID/
-  cp $SRC/MUTANT/NOTES.md /verif/seeded/$ID/NOTES.md 2>/dev/null
+  mkdir -p /verif/seeded/$DEST
+  cp $SRC/MUTANT/patch.diff $SRC/MUTANT/verif_demo_test.go /verif/seeded/$DEST/
+  cp $SRC/MUTANT/NOTES.md /verif/seeded/$DEST/NOTES.md 2>/dev/null
   echo "CONFIRMED $ID"
 else
   tail -5 /tmp/confirm-$ID.suite /tmp/confirm-$ID.with /tmp/confirm-$ID.without
